@@ -27,7 +27,7 @@ import zlib
 from fractions import Fraction
 
 from harness import core
-from harness.core import qlit, zlit, listlit, strlit, optlit
+from harness.core import listlit
 
 ID = 'C08'
 PROPS = 'Props/C08.v'
@@ -57,7 +57,7 @@ ASSUMPTIONS = ['check_response is a function of (answercopy, student input): the
 HEADER = ('From Coq Require Import ZArith QArith List Bool.\n'
           'From Verif.Lib Require Import QRound.\n'
           'From Verif.Model Require Import Result ItemCheck ItemCheckAgree.\n'
-          'Import ListNotations.\nOpen Scope Q_scope.\n')
+          'Import ListNotations.\nLocal Open Scope Z_scope.\n')
 
 CLS_IDS = {'ConfigError': 1, 'StudentFacingError': 2, 'ValueError': 3}
 
@@ -516,28 +516,68 @@ def okterm(ok):
     raise Untermable('ok value %r' % (ok,))
 
 
-def qterm(x):
+def zc(n):
+    n = int(n)
+    return '(%d)' % n if n < 0 else '%d' % n
+
+
+def qparts(x):
     if isinstance(x, bool):
         x = int(x)
     if isinstance(x, float) and not math.isfinite(x):
         raise Untermable('non-finite number %r' % (x,))
     try:
-        return qlit(x)
+        fr = Fraction(x)
     except (TypeError, ValueError):
         try:
-            return qlit(float(x))
+            fr = Fraction(float(x))
         except Exception:
             raise Untermable('number %r' % (x,))
+    return '%s %d' % (zc(fr.numerator), fr.denominator)
+
+
+class Pool:
+    """distinct messages and numbers of a run, defined once in the header of the case files (Coq interprets every
+    numeral through a number notation, which dominates the elaboration time of literal-heavy files)"""
+    def __init__(self):
+        self.strs = {}
+        self.nums = {}
+
+    def s(self, text):
+        if text not in self.strs:
+            self.strs[text] = 's%d' % len(self.strs)
+        return self.strs[text]
+
+    def q(self, parts):
+        if parts not in self.nums:
+            self.nums[parts] = 'q%d' % len(self.nums)
+        return self.nums[parts]
+
+    def header(self):
+        out = []
+        for text, name in self.strs.items():
+            out.append('Definition %s : str := [%s].' % (name, ';'.join(str(ord(c)) for c in text)))
+        for parts, name in self.nums.items():
+            out.append('Definition %s : Q := Qmake %s.' % (name, parts))
+        return '\n'.join(out) + '\n'
+
+
+POOL = Pool()
+
+
+def qterm(x):
+    """exact rational, by name"""
+    return POOL.q(qparts(x))
 
 
 def sterm(s):
     if not isinstance(s, str):
         raise Untermable('message %r' % (s,))
-    return strlit(s)
+    return POOL.s(s)
 
 
-def entry_term(e):
-    return '(mkEntry %s %s %s)' % (okterm(e['ok']), qterm(e['grade_decimal']), sterm(e['msg']))
+def entry_fields(e):
+    return '%s %s %s' % (okterm(e['ok']), qterm(e['grade_decimal']), sterm(e['msg']))
 
 
 class Ids:
@@ -572,8 +612,8 @@ def answers_term(snap, ids):
     cnt = ids.counter()
     items = []
     for a in snap:
-        es = [zlit(cnt.next(e)) for e in a['expect']]
-        items.append('(mkAnswer %s %s %s %s)' % (listlit(es), qterm(a['grade_decimal']), sterm(a['msg']), okterm(a['ok'])))
+        es = [zc(cnt.next(e)) for e in a['expect']]
+        items.append('(ans %s %s %s %s)' % (listlit(es), qterm(a['grade_decimal']), sterm(a['msg']), okterm(a['ok'])))
     return listlit(items)
 
 
@@ -584,18 +624,18 @@ def run_term(frame, ids, outcome):
     table, calls = [], []
     for c in frame['calls']:
         i = cnt.next(c['expect'])
-        calls.append('(mkSingle %s %s %s %s)' % (zlit(i), qterm(c['grade_decimal']), sterm(c['msg']), okterm(c['ok'])))
+        calls.append('(sgl %s %s %s %s)' % (zc(i), qterm(c['grade_decimal']), sterm(c['msg']), okterm(c['ok'])))
         if 'result' in c:
-            table.append('(%s, inl %s)' % (zlit(i), entry_term(c['result'])))
+            table.append('(t_hit %s %s)' % (zc(i), entry_fields(c['result'])))
         else:
             e = c.get('exc')
-            table.append('(%s, inr (%s, %s))' % (zlit(i), 'true' if isinstance(e, MITxError) else 'false',
-                                                 zlit(cls_id(type(e).__name__))))
+            table.append('(t_exc %s %s %s)' % (zc(i), 'true' if isinstance(e, MITxError) else 'false',
+                                               zc(cls_id(type(e).__name__))))
     if outcome[0] == 'ret':
-        o = '(ORet %s)' % entry_term(outcome[1])
+        o = '(o_ret %s)' % entry_fields(outcome[1])
     else:
-        o = '(OExc %s)' % zlit(cls_id(type(outcome[1]).__name__))
-    return '(%s, %s, %s)' % (listlit(table), listlit(calls), o)
+        o = '(OExc %s)' % zc(cls_id(type(outcome[1]).__name__))
+    return '(mkrun %s %s %s)' % (listlit(table), listlit(calls), o)
 
 
 def raw_term(case, perm, shuffles, ids):
@@ -609,17 +649,18 @@ def raw_term(case, perm, shuffles, ids):
         return leaves(v)
     items = []
     for a, vals in arrange(case, perm, shuffles):
-        es = [zlit(cnt.next(raw_leaves(v))) for v in vals]
-        re_ = '(RMany %s)' % listlit(es) if a['tuple'] else '(ROne %s)' % es[0]
+        es = [zc(cnt.next(raw_leaves(v))) for v in vals]
+        re_ = '(r_many %s)' % listlit(es) if a['tuple'] else '(r_one %s)' % es[0]
         if a['form'] == 'bare':
-            items.append('(RBare %s)' % re_)
+            items.append('(r_bare %s)' % re_)
         else:
-            okraw = {None: 'None', 'computed': '(Some RComputed)', True: '(Some RTrue)', False: '(Some RFalse)',
-                     'partial': '(Some RPartial)'}[a['ok']]
-            items.append('(RDict %s %s %s %s)' % (re_, optlit(a['credit'], qterm), optlit(a['msg'], sterm), okraw))
+            okraw = {None: 'nook', 'computed': '(someok RComputed)', True: '(someok RTrue)', False: '(someok RFalse)',
+                     'partial': '(someok RPartial)'}[a['ok']]
+            items.append('(r_dict %s %s %s %s)' % (re_, 'noq' if a['credit'] is None else '(someq %s)' % qterm(a['credit']),
+                                                   'nos' if a['msg'] is None else '(somes %s)' % sterm(a['msg']), okraw))
     if case.get('single') and len(items) == 1:
-        return '(RSingle %s)' % items[0]
-    return '(RTuple %s)' % listlit(items)
+        return '(r_single %s)' % items[0]
+    return '(r_tuple %s)' % listlit(items)
 
 
 # ------------------------------------------------------------------------------------------------
@@ -692,7 +733,7 @@ def check_top(case, perm, shuffles, singles, constructible, res, rec, emit, stat
         stats['unconstructible'] += 1
         if emit:
             try:
-                return 'Top %s %s None []' % (raw_term(case, perm, shuffles, ids), sterm(case['wrong_msg']))
+                return 'Top %s %s cfg_none []' % (raw_term(case, perm, shuffles, ids), sterm(case['wrong_msg']))
             except Untermable:
                 return None
         return None
@@ -744,7 +785,7 @@ def check_top(case, perm, shuffles, singles, constructible, res, rec, emit, stat
                 if len(top) == 1:
                     runs.append(run_term(top[0], ids, (st, r)))
                 elif st == 'ret' or top:
-                    runs.append('([], [], (OExc (-2)%Z))')       # check was not called exactly once: disagreement
+                    runs.append('(mkrun [] [] (OExc (-2)))')       # check was not called exactly once: disagreement
                 for f in frames:
                     if f['depth'] > 0:
                         t = sub_term(f)
@@ -753,7 +794,7 @@ def check_top(case, perm, shuffles, singles, constructible, res, rec, emit, stat
             except Untermable:
                 stats['untermable'] += 1
     if emit and term_ok:
-        return 'Top %s %s (Some %s) %s' % (rawt, sterm(case['wrong_msg']), cfgt, listlit(runs))
+        return 'Top %s %s (cfg_some %s) %s' % (rawt, sterm(case['wrong_msg']), cfgt, listlit(runs))
     return None
 
 
@@ -845,11 +886,11 @@ def invalid_config_cases(rng, res, stats):
             res.oracle_evals += 1
             ids = Ids()
             if st == 'ret':
-                cfg = '(Some %s)' % answers_term(snap_answers(g.config['answers']), ids)
+                cfg = '(cfg_some %s)' % answers_term(snap_answers(g.config['answers']), ids)
                 res.witnesses.append(witness(case, 'config', perm, {}, None,
                                              'credit %r outside [0,1] accepted for an alternative' % (credit,), 'direct'))
             else:
-                cfg = 'None'
+                cfg = 'cfg_none'
             terms.append('Top %s %s %s []' % (raw_term(case, perm, {}, Ids()), sterm(''), cfg))
     stats['invalid_config_cases'] = len(terms)
     return terms
@@ -860,11 +901,13 @@ def empty_cases(res, stats):
     from mitxgraders import StringGrader
     terms = []
     rec = stats['rec']
-    for answers, raw, cfg in (((), '(RTuple [])', '(Some [])'),
-                              (({'expect': ()},), '(RTuple [RDict (RMany []) None None None])', '(Some [mkAnswer [] 1 [] OkTrue])'),
+    for answers, raw, cfg in (((), '(r_tuple [])', '(cfg_some [])'),
+                              (({'expect': ()},), '(r_tuple [r_dict (r_many []) noq nos nook])', '(cfg_some [ans [] %s %s OkTrue])' % (qterm(1), sterm(''))),
                               (({'expect': (), 'grade_decimal': 0.5, 'msg': 'm'}, {'expect': ()}),
-                               '(RTuple [RDict (RMany []) (Some (1#2)) (Some %s) None; RDict (RMany []) None None None])' % strlit('m'),
-                               '(Some [mkAnswer [] (1#2) %s OkPartial; mkAnswer [] 1 [] OkTrue])' % strlit('m'))):
+                               '(r_tuple [r_dict (r_many []) (someq %s) (somes %s) nook; r_dict (r_many []) noq nos nook])'
+                               % (qterm(0.5), sterm('m')),
+                               '(cfg_some [ans [] %s %s OkPartial; ans [] %s %s OkTrue])'
+                               % (qterm(0.5), sterm('m'), qterm(1), sterm('')))):
         g = StringGrader(answers=answers, wrong_msg='w')
         rec.take()
         st, r = core.guarded(g, None, 'x')
@@ -875,7 +918,7 @@ def empty_cases(res, stats):
                                   'answers': repr(answers)})
             continue
         if len(frames) == 1:
-            terms.append('Top %s %s %s %s' % (raw, strlit('w'), cfg, listlit([run_term(frames[0], Ids(), (st, r))])))
+            terms.append('Top %s %s %s %s' % (raw, sterm('w'), cfg, listlit([run_term(frames[0], Ids(), (st, r))])))
     return terms
 
 
@@ -905,6 +948,7 @@ def run(ctx):
     stats['rec'] = rec
     rec.install()
     terms = []
+    POOL.__init__()
     try:
         plan = {'String': 46, 'Formula': 9, 'Numerical': 12, 'Matrix': 8, 'SingleList': 14}
         if escalate:
@@ -974,8 +1018,13 @@ def run(ctx):
         c = cases[0][0]
         res.samples.append({'case': {'kind': c['kind'], 'alternatives': [build_alt(a) for a in c['alts']], 'wrong_msg': c['wrong_msg'],
                                      'inputs': [i['text'] for i in c['inputs']]}})
-    shard = max(50, -(-len(terms) // 16))
-    n, failing, errors = core.eval_agreement('c08', HEADER, 'agree', terms, shard=shard, case_type='case')
+    # shards of mixed cases, at most ~1.2 MB of terms each (elaboration time and memory of coqc grow with the file)
+    random.Random(seed).shuffle(terms)
+    total_bytes = sum(len(t) for t in terms) or 1
+    shard = max(50, min(-(-len(terms) // 16), int(len(terms) * 1.2e6 / total_bytes) or 1))
+    res.distribution['coq_case_bytes'] = total_bytes
+    res.distribution['coq_shard_size'] = shard
+    n, failing, errors = core.eval_agreement('c08', HEADER + POOL.header(), 'agree', terms, shard=shard, case_type='case')
     res.programs += n
     res.corr_errors += errors
     for i in failing:
